@@ -11,8 +11,9 @@ PARTIAL = 'proved: exactly one reading per appended/merged candle per node after
 
 
 def oracle(ctx):
-    n = (192 if ctx["tier"] == "quick" else 480) * ctx["boost"]
-    return cm.run_cases(fw.c07_case, ctx["seed"], ID, n, {"size": 0 if ctx["tier"] == "quick" else 3 * 0})
+    n = (192 if ctx["tier"] == "quick" else 1920) * ctx["boost"]
+    return cm.merge_results(cm.run_cases(fw.c07_case, ctx["seed"], ID, n, {"size": 0}),
+                            cm.run_cases(fw.c07_hexital_case, ctx["seed"], ID + "hx", n // 3, {"size": 0}))
 
 
-replay = fw.c07_replay
+replay = fw.c07_any_replay
